@@ -18,10 +18,10 @@ var corpusCases = []corpusCase{
 	// compared with the lower key P‖x, which was dropped. Both directions, both entry points.
 	{allKinds, func(r *runner) {
 		P := daoPrefix
-		r.o.Line("new 0 "+r.w.nodes[0].kind, "ok")
+		r.line("new 0 "+r.w.nodes[0].kind, "ok")
 		r.opChangeSet(0, []kv{{cat(P, []byte{0x71}), []byte{1}}, {cat(P, []byte{0x6f}), []byte{2}}})
 		n := r.w.addLayer(0, false)
-		r.o.Line("layer 1 0 0", "ok")
+		r.line("layer 1 0 0", "ok")
 		r.opPut(n.id, cat(P, P, []byte{0x71}), []byte{3}, false)
 		r.opPut(n.id, cat(P, P, []byte{0x6f}), []byte{4}, false)
 		for _, bw := range []bool{false, true} {
@@ -33,7 +33,7 @@ var corpusCases = []corpusCase{
 		}
 		// one more layer: the cut happens only at the top
 		p := r.w.addLayer(1, true)
-		r.o.Line("layer 2 1 1", "ok")
+		r.line("layer 2 1 1", "ok")
 		r.opPut(p.id, cat(P, P, P, []byte{0x71}), []byte{5}, true)
 		for _, bw := range []bool{false, true} {
 			r.opSeekAsync(2, seekRange{pfx: P, cut: true, bw: bw})
@@ -47,7 +47,7 @@ var corpusCases = []corpusCase{
 	// stores filtered key <= prefix‖start: a cached key extending the start point was invisible
 	// until flushed and a cached deletion of such a key did not hide the disk's copy.
 	{allKinds, func(r *runner) {
-		r.o.Line("new 0 "+r.w.nodes[0].kind, "ok")
+		r.line("new 0 "+r.w.nodes[0].kind, "ok")
 		r.opChangeSet(0, []kv{
 			{[]byte{0x70, 0x00}, []byte{1}},
 			{[]byte{0x70, 0x00, 0x70}, []byte{2}},
@@ -57,7 +57,7 @@ var corpusCases = []corpusCase{
 		sr := seekRange{pfx: []byte{0x70}, start: []byte{0x00, 0x70}, bw: true}
 		r.opSeek(0, sr)
 		r.w.addLayer(0, false)
-		r.o.Line("layer 1 0 0", "ok")
+		r.line("layer 1 0 0", "ok")
 		r.opSeek(1, sr)
 		r.opPut(1, []byte{0x70, 0x00, 0x70, 0xff}, []byte{5}, false)
 		r.opDel(1, []byte{0x70, 0x00, 0x70, 0x71}, false)
